@@ -14,7 +14,8 @@ def replay(hist):
     uarr = {1: np.array([0.0, 2.0])}            # array identity (as in the specification) -> the user's numpy array
     narr = 2                                     # identities handed out so far (1 = user's, 2 = owned by field 1)
     flds = [fd.field.fdata(model, mesh, [uarr[1]], t=0.0)]
-    flist = fd.field.fieldlist()
+    flists = [fd.field.fieldlist(), fd.field.fieldlist()]
+    flist = flists[0]
     for step, h in enumerate(hist):
         op, a = h["op"], h["args"]
         try:
@@ -44,8 +45,15 @@ def replay(hist):
             elif op == "diff":
                 narr += 1
                 flds.append(flds[a[0] - 1].diff(flds[a[1] - 1]))
+            elif op == "reset":
+                flds[a[0] - 1].reset(t=float(a[1]), it=int(a[2]))
+            elif op == "zero":
+                narr += 1
+                uarr[narr] = flds[a[0] - 1].zero_datalist()[0]
             elif op == "lappend":
-                flist.append(flds[a[0] - 1])
+                flists[a[0] - 1].append(flds[a[1] - 1])
+            elif op == "lextend":
+                flists[a[0] - 1].extend(flists[a[1] - 1])
             else:
                 return "unknown operation %s" % op
         except Exception as ex:
@@ -64,8 +72,13 @@ def replay(hist):
         if [float(t) for t in flist.time_array()] != [float(t) for t in o["times"]] or [int(i) for i in flist.it_array()] != [int(i) for i in o["its"]]:
             return "step %d %s%s: fieldlist shows times %s its %s, specification %s %s" % (
                 step + 1, op, a, flist.time_array(), flist.it_array(), o["times"], o["its"])
-        if [next(i + 1 for i, f in enumerate(flds) if f is s) for s in flist.solutions] != list(o["list"]):
+        if [next((i + 1 for i, f in enumerate(flds) if f is s), 0) for s in flist.solutions] != list(o["list"]):
             return "step %d %s%s: fieldlist holds other objects than the specification's %s" % (step + 1, op, a, o["list"])
+        if [next((i + 1 for i, f in enumerate(flds) if f is s), 0) for s in flists[1].solutions] != list(o["list2"]) \
+                or [float(t) for t in flists[1].time_array()] != [float(t) for t in o["times2"]] or len(flists[1]) != len(o["list2"]):
+            return "step %d %s%s: the second fieldlist holds %s, specification %s" % (step + 1, op, a, flists[1].time_array(), o["list2"])
+        if len(flist) != len(o["list"]) or any(flist[k] is not flds[o["list"][k] - 1] for k in range(len(flist))):
+            return "step %d %s%s: indexing the fieldlist gives other objects than the specification's %s" % (step + 1, op, a, o["list"])
     return None
 
 
